@@ -42,7 +42,7 @@ def cases(tier, seed):
         if shape == [1, 1]:
             shape = [1, 3]
         out.append({"id": "h5-%d" % i, "kind": "h5", "shape": shape, "dtype": DTYPES[i % len(DTYPES)],
-                    "channels": [0, 2, 3][(i // 2) % 3], "metaform": ["scalar", "dict", "array"][(i // 3) % 3],
+                    "channels": [0, 2, 3, 1][(i // 2) % 4], "metaform": ["scalar", "dict", "array"][(i // 3) % 3],      # (1: a one-entry illumination axis, F102)
                     "cycles": 1 + i % 3, "named": bool(i % 5), "origin": bool(i % 4 == 1), "seed": [seed, "h5", i],
                     "labels": [["red", "green", "blue"], ["uv", "ir", "x-ray"], [405, 532, 658], ["blue", "red", "green"]][(i // 5) % 4]})
     for i in range(n):
@@ -54,6 +54,16 @@ def cases(tier, seed):
              "channels": nch, "seed": [seed, "tiff", i]}
         if nch == 2:      # any two of the three colour channels (the third is a filler in the file)
             c["labels"] = [["red", "green"], ["green", "blue"], ["red", "blue"]][(i // 8) % 3]
+        out.append(c)
+    # TIFF catalogue: channel labels that are not colour names (F105, F106), a one-entry illumination axis (F107), a constant
+    # image (F104), a boolean mask (F108), a single row / column of pixels (known finding: refused)
+    cat = [dict(channels=3, labels=["uv", "ir", "x-ray"]), dict(channels=3, labels=["R", "G", "B"]), dict(channels=2, labels=["a", "b"]),
+           dict(channels=1, labels=["green"]), dict(channels=1, labels=["ir"]), dict(channels=0, constant=3.0), dict(channels=0, constant=0.0),
+           dict(channels=0, boolean=True), dict(channels=0, shape=[1, 7]), dict(channels=0, shape=[6, 1]), dict(channels=3, labels=["blue", "green", "red"])]
+    for j, extra in enumerate(cat):
+        c = {"id": "tiff-cat-%d" % j, "kind": "tiff", "shape": [5 + j % 3, 4 + j % 4], "depth": 8, "via": ["hp.save", "save_image"][j % 2], "scaling": "auto",
+             "seed": [seed, "tiffcat", j]}
+        c.update(extra)
         out.append(c)
     for i in range(n):
         shape = [int(rng.integers(1, 10)), int(rng.integers(2, 10))]
@@ -214,14 +224,24 @@ def _run_tiff(case, td):
     off, scl = [(0.0, 1.0), (0.0, 3e-9), (1.0, 1e-6), (4.0e4, 2.5e4), (-5.0, 10.0), (0.0, 1.0)][int(case["id"].split("-")[-1]) % 6]
     if scl != 1.0 or off != 0.0:
         im = im.copy(data=off + scl * (im.values - 0.1) / 0.9)
+    if case.get("constant") is not None:
+        im = im.copy(data=np.full(im.shape, float(case["constant"])))
+    if case.get("boolean"):
+        im = im.copy(data=im.values > float(np.median(im.values)))
     before = digest(im)
     p = os.path.join(td, "t.tif")
     depth, scaling = case["depth"], case["scaling"]
-    if case["via"] == "hp.save":
-        hp.save(p, im)
-        depth, scaling = 8, "auto"
-    else:
-        save_image(p, im, scaling=scaling, depth=depth)
+    try:
+        if case["via"] == "hp.save":
+            hp.save(p, im)
+            depth, scaling = 8, "auto"
+        else:
+            save_image(p, im, scaling=scaling, depth=depth)
+    except ValueError as e:
+        if min(case["shape"]) == 1 and "single row or column" in str(e):
+            # a single row or column of pixels has no spacing to store: refused with a clear message (recorded as a known finding)
+            return {"resid": {}, "flags": {"single_row_or_column_round_trips": False}, "bad_fields": ["refused: %s" % e], "const": False}
+        raise
     b = hp.load(p)
     flags, resid = {}, {}
     flags["original_untouched"] = bool(digest(im) == before)
@@ -231,7 +251,7 @@ def _run_tiff(case, td):
         flags["channel_labels"] = bool(not case["channels"] or sorted(map(str, b.illumination.values)) == sorted(map(str, im.illumination.values)))
         if case["channels"] and flags["channel_labels"]:
             bb = bb.sel(illumination=im.illumination.values)
-        rngv = float(im.values.max() - im.values.min())
+        rngv = float(np.asarray(im.values, dtype=float).max() - np.asarray(im.values, dtype=float).min())
         bits = {8: 8, 16: 15}.get(depth)
         if depth == "float":
             q = 1e-6 * max(abs(float(im.values.max())), 1e-300)   # float32 tiff
@@ -239,7 +259,11 @@ def _run_tiff(case, td):
             q = 1.0 / (2 ** bits - 1)      # values in [0,1] are mapped to the full integer range
         else:
             q = rngv / (2 ** bits - 1)
-        resid["tiff_quanta"] = fnum(float(np.abs(bb.values - im.values).max()) / q)
+        if rngv == 0 or case.get("boolean"):
+            # nothing to quantize: a constant image (or a two-level mask) comes back exactly
+            resid["tiff_quanta"] = 0.0 if np.array_equal(np.asarray(bb.values, dtype=float), np.asarray(im.values, dtype=float)) else float("inf")
+        else:
+            resid["tiff_quanta"] = fnum(float(np.abs(bb.values - im.values).max()) / q)
         flags["spacing_x"] = bool(np.allclose(bb.x.values, im.x.values, rtol=1e-12, atol=1e-12))
         flags["spacing_y"] = bool(np.allclose(bb.y.values, im.y.values, rtol=1e-12, atol=1e-12))
         bad = _compare_meta(im, bb, case["channels"], case.get("labels", LABELS)) if flags["channel_labels"] else ["channel labels %r vs %r" % (list(b.illumination.values), list(im.illumination.values))]
